@@ -170,6 +170,56 @@ def override_choices(prog, rng, pool, max_sets):
     return out + cands[:max_sets]
 
 
+EDGE_VALUES = [0, -1, 1, 2, 3, 4]
+
+
+def edge_variants(prog, rng, k=1):
+    """copies of a model program in which ONE integer literal (let value, register size, alias bound / index, qubit index,
+    integer gate argument, loop or subcircuit count) is replaced by another small value, zero and -1 included.  Pure
+    input generation: whether the variant is valid, and what it means, is decided by the specification."""
+    import copy
+    sites = []
+
+    def stmts(ss, path):
+        for i, st in enumerate(ss):
+            if st['k'] == 'gate':
+                for a, arg in enumerate(st['args']):
+                    if arg['k'] == 'num' and arg['t'] == 'int':
+                        sites.append(path + [i, 'args', a])
+                    elif arg['k'] == 'qubit' and arg['idx']['k'] == 'num':
+                        sites.append(path + [i, 'args', a, 'idx'])
+            elif st['k'] == 'loop':
+                if st['count']['k'] == 'num':
+                    sites.append(path + [i, 'count'])
+                stmts(st['body']['body'], path + [i, 'body', 'body'])
+            elif st['k'] == 'blk':
+                if st['sub'] and st['iters']['k'] == 'num':
+                    sites.append(path + [i, 'iters'])
+                stmts(st['body'], path + [i, 'body'])
+
+    for j, l in enumerate(prog['lets']):
+        if l['val']['k'] == 'num' and l['val']['t'] == 'int':
+            sites.append(['lets', j, 'val'])
+    for j, r in enumerate(prog['regs']):
+        for fld in ('size', 'idx', 'start', 'stop', 'step'):
+            if r[fld]['k'] == 'num':
+                sites.append(['regs', j, fld])
+    stmts(prog['body'], ['body'])
+    for j, m in enumerate(prog['macros']):
+        stmts(m['body']['body'], ['macros', j, 'body', 'body'])
+    out = []
+    for path in rng.sample(sites, min(k, len(sites))):
+        q = copy.deepcopy(prog)
+        cur = q
+        for step in path[:-1]:
+            cur = cur[step]
+        old = cur[path[-1]]
+        val = rng.choice([v for v in EDGE_VALUES if str(v) != old['v']])
+        cur[path[-1]] = project.num(val)
+        out.append(q)
+    return out
+
+
 def corpus_files():
     root = os.path.join(os.path.dirname(os.environ.get('VERIF_REPO_SRC', '/repo/src').rstrip('/')), 'examples', 'jaqal')
     return sorted(glob.glob(os.path.join(root, '**', '*.jaqal'), recursive=True))
@@ -193,6 +243,9 @@ def run_property(prop, tier, configs, sites_fn, owned, nontrivial, rule, module=
             rep.cov['exhaustive'] = False
         for n, p in enumerate(progs):
             jobs.append({'id': '%s/%d' % (name, n), 'prog': p, 'sites': sites_fn(p, rng)})
+            if 'edge' in variants and n % 3 == 0:
+                for m, q in enumerate(edge_variants(p, rng)):
+                    jobs.append({'id': '%s/%d/edge%d' % (name, n, m), 'prog': q, 'sites': sites_fn(q, rng)})
             if 'macros_last' in variants:
                 names = {m['v'] for m in p['macros']}
                 if p['macros'] and not any(("'v': '%s'" % nm) in repr(p['body']) for nm in names):
